@@ -41,6 +41,13 @@ type BoltFrame struct {
 	Class   []byte
 	Headers []KV
 	Content []byte
+	// HeaderBlock, when non-nil, is emitted verbatim as the header block instead
+	// of the canonical encoding of Headers (non-canonical but well-formed blocks:
+	// null strings written as length 0xFFFFFFFF, see ParseBoltLoose).
+	HeaderBlock []byte
+	// NullKeys / NullValues are set by ParseBoltLoose only.
+	NullKeys   int // pairs whose key is a null string (not in Headers)
+	NullValues int // pairs with a non-null key whose value is a null string (not in Headers)
 }
 
 // NewBolt returns a frame with the usual values of the fixed fields.
@@ -77,6 +84,9 @@ func (f BoltFrame) IDOffset() int {
 
 // HeaderBlockLen is the encoded length of the header block.
 func (f BoltFrame) HeaderBlockLen() int {
+	if f.HeaderBlock != nil {
+		return len(f.HeaderBlock)
+	}
 	n := 0
 	for _, kv := range f.Headers {
 		n += 8 + len(kv.K) + len(kv.V)
@@ -118,11 +128,15 @@ func (f BoltFrame) Encode() []byte {
 	b = binary.BigEndian.AppendUint16(b, uint16(hl))
 	b = binary.BigEndian.AppendUint32(b, uint32(len(f.Content)))
 	b = append(b, f.Class...)
-	for _, kv := range f.Headers {
-		b = binary.BigEndian.AppendUint32(b, uint32(len(kv.K)))
-		b = append(b, kv.K...)
-		b = binary.BigEndian.AppendUint32(b, uint32(len(kv.V)))
-		b = append(b, kv.V...)
+	if f.HeaderBlock != nil {
+		b = append(b, f.HeaderBlock...)
+	} else {
+		for _, kv := range f.Headers {
+			b = binary.BigEndian.AppendUint32(b, uint32(len(kv.K)))
+			b = append(b, kv.K...)
+			b = binary.BigEndian.AppendUint32(b, uint32(len(kv.V)))
+			b = append(b, kv.V...)
+		}
 	}
 	b = append(b, f.Content...)
 	return b
@@ -131,7 +145,22 @@ func (f BoltFrame) Encode() []byte {
 // ParseBolt parses the first frame of b (bolt or boltv2 by the protocol byte)
 // and returns its length. It fails if b is shorter than the lengths announce or
 // if the header block is not an exact sequence of pairs.
-func ParseBolt(b []byte) (BoltFrame, int, error) {
+func ParseBolt(b []byte) (BoltFrame, int, error) { return parseBolt(b, false) }
+
+// BoltNullLen is the length sofa-bolt (java) writes for a null string in a header block.
+const BoltNullLen = 0xFFFFFFFF
+
+// ParseBoltLoose is ParseBolt for header blocks in the form the java
+// implementation of the protocol writes and reads them (sofa-bolt
+// SimpleMapSerializer): a sequence of PAIRS of strings, every string a 4-byte
+// length plus bytes, where the length 0xFFFFFFFF stands for a null string (no
+// bytes follow). Pairs with a null key or a null value are counted in
+// NullKeys / NullValues and are not part of Headers (a null value reads the
+// same as an absent key). A block with an odd number of strings is an error,
+// as is everything ParseBolt rejects.
+func ParseBoltLoose(b []byte) (BoltFrame, int, error) { return parseBolt(b, true) }
+
+func parseBolt(b []byte, loose bool) (BoltFrame, int, error) {
 	var f BoltFrame
 	if len(b) < 2 {
 		return f, 0, fmt.Errorf("bolt: short frame (%d bytes)", len(b))
@@ -187,9 +216,18 @@ func ParseBolt(b []byte) (BoltFrame, int, error) {
 	p += hl
 	for q := 0; q < len(hb); {
 		var kv KV
+		var null [2]bool
 		for i := 0; i < 2; i++ {
 			if q+4 > len(hb) {
+				if q == len(hb) {
+					return f, 0, fmt.Errorf("bolt: header block of %d bytes ends after a key (odd number of strings)", hl)
+				}
 				return f, 0, fmt.Errorf("bolt: header block of %d bytes has %d dangling bytes", hl, len(hb)-q)
+			}
+			if loose && binary.BigEndian.Uint32(hb[q:]) == BoltNullLen {
+				q += 4
+				null[i] = true
+				continue
 			}
 			l := int(binary.BigEndian.Uint32(hb[q:]))
 			q += 4
@@ -204,7 +242,14 @@ func ParseBolt(b []byte) (BoltFrame, int, error) {
 				kv.V = s
 			}
 		}
-		f.Headers = append(f.Headers, kv)
+		switch {
+		case null[0]:
+			f.NullKeys++
+		case null[1]:
+			f.NullValues++
+		default:
+			f.Headers = append(f.Headers, kv)
+		}
 	}
 	f.Content = append([]byte(nil), b[p:p+nl]...)
 	return f, total, nil
